@@ -180,12 +180,70 @@ func (o *optimizer) optimizeDelayCall() {
 		},
 	)
 
+	// the combinator call is evaluated when the enclosing term is built instead of when the delayed block runs,
+	// so its args must not do anything: that holds for what the rewriter generates (func lits, nested combinator calls,
+	// func values left by eta reduction), not for hand-written terms in the same file, e.g.
+	// 	Delay(func() Seq[int] { return While(mkCond(n), body()) })
+	var inert func(ctx astmatcher.Ctx, e ast.Expr) bool
+	inert = func(ctx astmatcher.Ctx, e ast.Expr) bool {
+		switch e := e.(type) {
+		case *ast.FuncLit, *ast.BasicLit:
+			return true
+		case *ast.ParenExpr:
+			return inert(ctx, e.X)
+		case *ast.Ident:
+			// nil, declared func
+			switch ctx.ObjectOf(e).(type) {
+			case *types.Nil, *types.Func:
+				return true
+			}
+			return false
+		case *ast.SelectorExpr:
+			// pkg.Func, generated iterator.MoveNext
+			if x, _ := e.X.(*ast.Ident); x != nil {
+				if _, isPkg := ctx.ObjectOf(x).(*types.PkgName); isPkg {
+					_, isFunc := ctx.ObjectOf(e.Sel).(*types.Func)
+					return isFunc
+				}
+				return strings.HasPrefix(x.Name, cstIterVar) && e.Sel.Name == cstMoveNext
+			}
+			return false
+		case *ast.IndexExpr:
+			return inert(ctx, e.X) // instantiated func
+		case *ast.IndexListExpr:
+			return inert(ctx, e.X)
+		case *ast.CallExpr:
+			callee, _ := ctx.Callee(e).(*types.Func)
+			if callee == nil || callee.Pkg() == nil || callee.Pkg().Path() != pkgSeqPath {
+				return false
+			}
+			if callee.Name() == cstBind {
+				// the first arg is the yielded value
+				return len(e.Args) == 2 && isBasicLit(e.Args[0]) && inert(ctx, e.Args[1])
+			}
+			for _, arg := range e.Args {
+				if !inert(ctx, arg) {
+					return false
+				}
+			}
+			return true
+		}
+		return false
+	}
+
 	o.m.Match(
 		delayCallWithNoEffectDirectReturn,
 		func(c *astmatcher.Cursor, ctx astmatcher.Ctx) {
-			c.Replace(ctx.Binds["return"])
+			if ret := ctx.Binds["return"].(ast.Expr); inert(ctx, ret) {
+				c.Replace(ret)
+			}
 		},
 	)
+}
+
+func isBasicLit(e ast.Expr) bool {
+	_, ok := e.(*ast.BasicLit)
+	return ok
 }
 
 // a func type without any invalid param / result type
